@@ -8,6 +8,7 @@ import os, subprocess, sys, time
 WT = sys.argv[1] if len(sys.argv) > 1 else "/tmp/wt-pygen"
 COQ = sys.argv[2] if len(sys.argv) > 2 else "/work/pygen/coq"
 FILT = sys.argv[3] if len(sys.argv) > 3 else ""
+TRY = os.path.join(os.path.dirname(os.path.abspath(__file__)), "pygen_try.sh")   # PYGEN_HARNESS selects the harness copy
 ADD = "pabutools/election/satisfaction/additivesatisfaction.py"
 FUN = "pabutools/election/satisfaction/functionalsatisfaction.py"
 POS = "pabutools/election/satisfaction/positionalsatisfaction.py"
@@ -284,7 +285,7 @@ R("T08 get_project_sat: no cache", (ADD, """        score = self.scores.get(proj
             self.scores[project] = score
         return score
 """, "        return self.func(self.instance, self.profile, self.ballot, project, self.precomputed_values)\n"))
-R("T09 PositionalSatisfaction.sat: append loop (list mutation: outside the fragment)", (POS, """        scores = [self.positional_func(self.ballot, project) for project in projects]
+R("T09 PositionalSatisfaction.sat: append loop", (POS, """        scores = [self.positional_func(self.ballot, project) for project in projects]
         return self.aggregation_func(scores)
 """, """        scores = []
         for project in projects:
@@ -347,6 +348,285 @@ B("B20 effort: truth test dropped", (ADD, """    if denominator:
 B("B21 lexico key: cost instead of name", (TIE, "lambda inst, prof, proj: proj.name)", "lambda inst, prof, proj: proj.cost)"))
 B("B22 borda: position from the end", (POS, "return len(ballot) - ballot.position(project) - 1", "return ballot.position(project)"))
 
+# =====================================================================================================
+# C15gen: instance.py / utils.powerset
+# =====================================================================================================
+INS = "pabutools/election/instance.py"
+UTL = "pabutools/utils.py"
+VSAT = "pabutools/analysis/votersatisfaction.py"
+PPR = "pabutools/analysis/profileproperties.py"
+IPR = "pabutools/analysis/instanceproperties.py"
+MBAC = """    for p in projects_sorted:
+        new_total_cost = p.cost + cost
+        if new_total_cost > budget_limit:
+            break
+        cost = new_total_cost
+        selected += 1
+"""
+EXH = """        for p in available_projects:
+            if p not in projects and (p.cost + cost <= self.budget_limit):
+                return False
+        return True
+"""
+TRIV = """        return (total_cost(self) <= self.budget_limit) or (
+            self.budget_limit < min(p.cost for p in self)
+        )
+"""
+R("IR01 total_cost: accumulator loop", (INS, "    return sum(p.cost for p in projects)\n",
+  "    total = 0\n    for p in projects:\n        total += p.cost\n    return total\n"))
+R("IR02 is_feasible: negated strict comparison", (INS, "        return total_cost(projects) <= self.budget_limit\n",
+  "        return not total_cost(projects) > self.budget_limit\n"))
+R("IR03 is_exhaustive: all(...)", (INS, EXH,
+  "        return all(p in projects or p.cost + cost > self.budget_limit for p in available_projects)\n"))
+R("IR04 is_exhaustive: not any(...)", (INS, EXH,
+  "        return not any(p not in projects and p.cost + cost <= self.budget_limit for p in available_projects)\n"))
+R("IR05 is_exhaustive: conditional expression for the default", (INS, """        if available_projects is None:
+            available_projects = self
+        cost = total_cost(projects)
+""", """        candidates = self if available_projects is None else available_projects
+        cost = total_cost(projects)
+"""), (INS, "        for p in available_projects:\n            if p not in projects and (p.cost + cost", "        for p in candidates:\n            if p not in projects and (p.cost + cost"))
+R("IR06 is_trivial: early return", (INS, TRIV, """        if total_cost(self) <= self.budget_limit:
+            return True
+        return self.budget_limit < min(p.cost for p in self)
+"""))
+R("IR07 max_budget_allocation_cardinality: no auxiliary variable", (INS, MBAC, """    for p in projects_sorted:
+        if p.cost + cost > budget_limit:
+            break
+        cost += p.cost
+        selected += 1
+"""))
+R("IR08 max_budget_allocation_cardinality: else: break", (INS, MBAC, """    for p in projects_sorted:
+        new_total_cost = p.cost + cost
+        if new_total_cost <= budget_limit:
+            cost = new_total_cost
+            selected += 1
+        else:
+            break
+"""))
+R("IR09 max_budget_allocation_cardinality: variables renamed", (INS, """    cost = 0
+    selected = 0
+""" + MBAC + "    return selected\n", """    spent = 0
+    count = 0
+    for p in projects_sorted:
+        new_total_cost = p.cost + spent
+        if new_total_cost > budget_limit:
+            break
+        spent = new_total_cost
+        count += 1
+    return count
+"""))
+R("IR10 budget_allocations: list comprehension", (INS, """        for b in powerset(self):
+            if self.is_feasible(b):
+                yield b
+""", "        return [b for b in powerset(self) if self.is_feasible(b)]\n"))
+R("IR11 powerset: list comprehension inside chain", (UTL,
+  "    return chain.from_iterable(combinations(s, r) for r in range(len(s) + 1))\n",
+  "    return chain.from_iterable([combinations(s, r) for r in range(len(s) + 1)])\n"))
+R("IR12 is_feasible: local variable", (INS, "        return total_cost(projects) <= self.budget_limit\n",
+  "        cost = total_cost(projects)\n        return cost <= self.budget_limit\n"))
+R("IR13 is_exhaustive: flag and break", (INS, EXH, """        exhaustive = True
+        for p in available_projects:
+            if p not in projects and p.cost + cost <= self.budget_limit:
+                exhaustive = False
+                break
+        return exhaustive
+"""))
+R("IR14 powerset: nested loops with yield (collects under a binder)", (UTL,
+  "    return chain.from_iterable(combinations(s, r) for r in range(len(s) + 1))\n",
+  "    for r in range(len(s) + 1):\n        for c in combinations(s, r):\n            yield c\n"))
+
+B("IB01 is_feasible: < for <=", (INS, "        return total_cost(projects) <= self.budget_limit\n", "        return total_cost(projects) < self.budget_limit\n"))
+B("IB02 is_exhaustive: < for <=", (INS, "(p.cost + cost <= self.budget_limit)", "(p.cost + cost < self.budget_limit)"))
+B("IB03 is_exhaustive: membership test dropped", (INS, "if p not in projects and (p.cost + cost <= self.budget_limit):", "if p.cost + cost <= self.budget_limit:"))
+B("IB04 is_exhaustive: answers swapped", (INS, "                return False\n        return True\n", "                return True\n        return False\n"))
+B("IB05 is_trivial: <= for < (the repaired defect)", (INS, "            self.budget_limit < min(p.cost for p in self)", "            self.budget_limit <= min(p.cost for p in self)"))
+B("IB06 is_trivial: max for min", (INS, "            self.budget_limit < min(p.cost for p in self)", "            self.budget_limit < max(p.cost for p in self)"))
+B("IB07 max_budget_allocation_cardinality: >= for >", (INS, "        if new_total_cost > budget_limit:", "        if new_total_cost >= budget_limit:"))
+B("IB08 max_budget_allocation_cardinality: dearest first", (INS, "key=lambda proj: proj.cost)", "key=lambda proj: -proj.cost)"))
+B("IB09 max_budget_allocation_cardinality: continue for break", (INS, "        if new_total_cost > budget_limit:\n            break", "        if new_total_cost > budget_limit:\n            continue"))
+B("IB10 max_budget_allocation_cardinality: counted before the test", (INS, MBAC, """    for p in projects_sorted:
+        new_total_cost = p.cost + cost
+        selected += 1
+        if new_total_cost > budget_limit:
+            break
+        cost = new_total_cost
+"""))
+B("IB11 total_cost: counts the projects", (INS, "    return sum(p.cost for p in projects)\n", "    return sum(1 for p in projects)\n"))
+B("IB12 budget_allocations: infeasible ones", (INS, "            if self.is_feasible(b):\n                yield b", "            if not self.is_feasible(b):\n                yield b"))
+B("IB13 powerset: the full set is missing", (UTL, "for r in range(len(s) + 1))", "for r in range(len(s)))"))
+B("IB14 is_trivial: and for or", (INS, "        return (total_cost(self) <= self.budget_limit) or (", "        return (total_cost(self) <= self.budget_limit) and ("))
+B("IB15 is_exhaustive: default is the given projects", (INS, "            available_projects = self\n", "            available_projects = projects\n"))
+
+# =====================================================================================================
+# C18gen: utils.mean_generator / gini_coefficient, analysis statistics
+# =====================================================================================================
+MGIN = """        for i in range(multiplicity):
+            n += 1
+            mean += frac(value - mean, n)
+"""
+R("SR01 mean_generator: plain assignments", (UTL, MGIN, """        for i in range(multiplicity):
+            n = n + 1
+            mean = mean + frac(value - mean, n)
+"""))
+R("SR02 mean_generator: conditional expressions for the unpacking", (UTL, """        multiplicity: int = 1
+        value: Numeric = x
+        if isinstance(x, tuple):
+            value = x[0]
+            multiplicity = x[1]
+""", """        value = x[0] if isinstance(x, tuple) else x
+        multiplicity = x[1] if isinstance(x, tuple) else 1
+"""))
+R("SR03 mean_generator: multiplied by frac(1, n)", (UTL, "            mean += frac(value - mean, n)\n", "            mean += (value - mean) * frac(1, n)\n"))
+R("SR04 gini: elif, all_nul set without testing it", (UTL, """        if all_nul and v > 0:
+            all_nul = False
+        num_values += 1
+""", """        elif v > 0:
+            all_nul = False
+        num_values += 1
+"""))
+R("SR05 gini: second pass as a comprehension", (UTL, """    total_cum_sum: Numeric = 0
+    for i, v in enumerate(sorted_values):
+        total_cum_sum += v * (num_values - i)
+""", "    total_cum_sum = sum(v * (num_values - i) for i, v in enumerate(sorted_values))\n"))
+R("SR06 gini: negated test for the all-zero vector", (UTL, """    if all_nul:
+        return 0
+    sorted_values: list[Numeric] = sorted(values)
+""", """    if not all_nul:
+        pass
+    else:
+        return 0
+    sorted_values = sorted(values)
+"""))
+R("SR07 avg_satisfaction: list built first", (VSAT, """    return mean_generator(
+        (
+            sat_class(instance, profile, ballot).sat(budget_allocation),
+            profile.multiplicity(ballot),
+        )
+        for ballot in profile
+    )
+""", """    pairs = [(sat_class(instance, profile, b).sat(budget_allocation), profile.multiplicity(b)) for b in profile]
+    return mean_generator(pairs)
+"""))
+R("SR08 percent_positive_satisfaction: comprehension", (VSAT, """    num_pos_sat = 0
+    for sat in sat_profile:
+        if sat.sat(budget_allocation) > 0:
+            num_pos_sat += sat_profile.multiplicity(sat)
+""", "    num_pos_sat = sum(sat_profile.multiplicity(s) for s in sat_profile if s.sat(budget_allocation) > 0)\n"))
+R("SR09 gini_coefficient_of_satisfaction: one call, conditional expression", (VSAT, """    if invert:
+        return 1 - gini_coefficient(np.array(voter_satisfactions))
+    return gini_coefficient(np.array(voter_satisfactions))
+""", """    g = gini_coefficient(np.array(voter_satisfactions))
+    return 1 - g if invert else g
+"""))
+R("SR10 avg_project_cost: through sum_project_cost", (IPR, "    return frac(total_cost(instance), len(instance))\n",
+  "    return frac(sum_project_cost(instance), len(instance))\n"))
+R("SR11 funding_scarcity: guard first", (IPR, """    if instance.budget_limit > 0:
+        return frac(total_cost(instance), instance.budget_limit)
+    raise ValueError(
+""", """    if instance.budget_limit <= 0:
+        raise ValueError("funding scarcity can only be calculated for instances with budget limit > 0")
+    return frac(total_cost(instance), instance.budget_limit)
+    raise ValueError(
+"""))
+R("SR12 median_approval_score: len < 1", (PPR, """    if len(instance) == 0:
+        return 0
+    return float(
+        np.median([frac(profile.approval_score(project)) for project in instance])
+""", """    if len(instance) < 1:
+        return 0
+    return float(
+        np.median([frac(profile.approval_score(project)) for project in instance])
+"""))
+R("SR13 avg_approval_score: generator", (PPR, "    return mean_generator([profile.approval_score(project) for project in instance])\n",
+  "    return mean_generator(profile.approval_score(p) for p in instance)\n"))
+R("SR14 avg_ballot_length: list, renamed variable", (PPR, """    return mean_generator(
+        (len(ballot), profile.multiplicity(ballot)) for ballot in profile
+    )
+""", "    return mean_generator([(len(b), profile.multiplicity(b)) for b in profile])\n"))
+R("SR15 gini: length taken after the loop (state of the first pass changes shape)", (UTL, """        num_values += 1
+    if all_nul:
+        return 0
+""", """    num_values = len(values)
+    if all_nul:
+        return 0
+"""))
+
+B("SB01 mean_generator: counter incremented after the division", (UTL, MGIN, """        for i in range(multiplicity):
+            mean += frac(value - mean, n)
+            n += 1
+"""))
+B("SB02 mean_generator: + for -", (UTL, "frac(value - mean, n)", "frac(value + mean, n)"))
+B("SB03 mean_generator: multiplicity ignored", (UTL, "        for i in range(multiplicity):", "        for i in range(1):"))
+B("SB04 gini: zero raises too", (UTL, "        if v < 0:\n            raise", "        if v <= 0:\n            raise"))
+B("SB05 gini: all-zero guard dropped", (UTL, "    if all_nul:\n        return 0\n", ""))
+B("SB06 gini: weights shifted by one", (UTL, "total_cum_sum += v * (num_values - i)", "total_cum_sum += v * (num_values - i - 1)"))
+B("SB07 gini: not sorted", (UTL, "sorted_values: list[Numeric] = sorted(values)", "sorted_values: list[Numeric] = list(values)"))
+B("SB08 gini: n - 1 in the numerator", (UTL, "return frac(num_values + 1 - frac(", "return frac(num_values - 1 - frac("))
+B("SB09 avg_satisfaction: multiplicity dropped", (VSAT, """            sat_class(instance, profile, ballot).sat(budget_allocation),
+            profile.multiplicity(ballot),
+        )""", """            sat_class(instance, profile, ballot).sat(budget_allocation),
+            1,
+        )"""))
+B("SB10 percent_positive_satisfaction: >= 0", (VSAT, "        if sat.sat(budget_allocation) > 0:", "        if sat.sat(budget_allocation) >= 0:"))
+B("SB11 percent_positive_satisfaction: += 1 (the repaired defect)", (VSAT, "            num_pos_sat += sat_profile.multiplicity(sat)", "            num_pos_sat += 1"))
+B("SB12 gini_coefficient_of_satisfaction: invert inverted", (VSAT, "    if invert:\n        return 1 - gini_coefficient(", "    if not invert:\n        return 1 - gini_coefficient("))
+B("SB13 avg_ballot_cost: length instead of cost", (PPR, "        (total_cost(ballot), profile.multiplicity(ballot)) for ballot in profile", "        (len(ballot), profile.multiplicity(ballot)) for ballot in profile"))
+B("SB14 funding_scarcity: >= 0 guard", (IPR, "    if instance.budget_limit > 0:", "    if instance.budget_limit >= 0:"))
+B("SB15 avg_project_cost: divided by the budget", (IPR, "    return frac(total_cost(instance), len(instance))", "    return frac(total_cost(instance), instance.budget_limit)"))
+B("SB16 median_approval_score: empty-instance guard dropped", (PPR, """    if len(instance) == 0:
+        return 0
+    return float(
+        np.median([frac(profile.approval_score(project)) for project in instance])""", """    return float(
+        np.median([frac(profile.approval_score(project)) for project in instance])"""))
+B("SB17 avg_total_score: approval scores", (PPR, "    return mean_generator(profile.total_score(project) for project in instance)", "    return mean_generator(profile.approval_score(project) for project in instance)"))
+B("SB18 percent_non_empty_handed: another measure", (VSAT, "    return avg_satisfaction(instance, profile, budget_allocation, CC_Sat)", "    return avg_satisfaction(instance, profile, budget_allocation, Cost_Sat)"))
+
+# ---------------- independent behaviour-preserving rewrites (whole patches, written by someone else) ----------------
+PATCHES = os.path.join(os.path.dirname(os.path.abspath(__file__)), "pygen_patches")
+R("PT1 tiebreaking: hoisted identity key, named local sort key, temporary before [0] (wrap3-3)", ("PATCH", os.path.join(PATCHES, "wrap3-3-tiebreaking.diff"), ""))
+R("PI1 instance: enumerate + early return, not any(...) (wrap3-2)", ("PATCH", os.path.join(PATCHES, "wrap3-2-instance.diff"), ""))
+R("PC1 satisfaction functions: temporaries, flipped guards, continue (wrap3-4)", ("PATCH", os.path.join(PATCHES, "wrap3-4-satisfaction.diff"), ""))
+# ---------------- siblings: lambda <-> local def <-> module-level def ----------------
+R("TK1 lexico key: a named module-level lambda", (TIE, "lexico_tie_breaking = TieBreakingRule(lambda inst, prof, proj: proj.name)",
+  "_lexico_key = lambda inst, prof, proj: proj.name\nlexico_tie_breaking = TieBreakingRule(_lexico_key)"))
+R("TK2 app_score key: a module-level def", (TIE, """app_score_tie_breaking = TieBreakingRule(
+    lambda inst, prof, proj: -prof.approval_score(proj)
+)""", """def _app_score_key(inst, prof, proj):
+    return -prof.approval_score(proj)
+
+
+app_score_tie_breaking = TieBreakingRule(_app_score_key)"""))
+R("TK3 max_cost key: module-level helper called inside the lambda", (TIE, "max_cost_tie_breaking = TieBreakingRule(lambda inst, prof, proj: -proj.cost)",
+  "def _cost_of(project):\n    return project.cost\n\n\nmax_cost_tie_breaking = TieBreakingRule(lambda inst, prof, proj: -_cost_of(proj))"))
+R("TK4 order: local def stored in a local variable", (TIE, """        return sorted(
+            projects,
+            key=lambda project: self.func(instance, profile, key(project)),
+        )
+""", """        def value_of(element):
+            return self.func(instance, profile, key(element))
+
+        sort_key = value_of
+        return sorted(projects, key=sort_key)
+"""))
+R("TK5 untie: temporaries before and after the subscript", (TIE, "        return self.order(instance, profile, projects, key)[0]\n",
+  "        ordered = self.order(instance, profile, projects, key)\n        first = ordered[0]\n        return first\n"))
+R("TK6 min_cost key: lambda calling a module-level lambda", (TIE, "min_cost_tie_breaking = TieBreakingRule(lambda inst, prof, proj: proj.cost)",
+  "_project_cost = lambda project: project.cost\nmin_cost_tie_breaking = TieBreakingRule(lambda inst, prof, proj: _project_cost(proj))"))
+B("TB1 order: closure over a key assigned AFTER the local def (late binding would change the meaning)", (TIE, """        if key is None:
+            key = default_key
+        return sorted(
+            projects,
+            key=lambda project: self.func(instance, profile, key(project)),
+        )
+""", """        def value_of(element):
+            return self.func(instance, profile, key(element))
+
+        if key is None:
+            key = default_key
+        return sorted(projects, key=value_of)
+"""))
+
 
 def sh(cmd, **kw):
     return subprocess.run(cmd, shell=True, capture_output=True, text=True, **kw)
@@ -360,6 +640,12 @@ def main():
         sh("git -C %s checkout -q -- pabutools" % WT)
         ok = True
         for f, old, new in edits:
+            if f == "PATCH":
+                if sh("git -C %s apply %s" % (WT, old)).returncode != 0:
+                    ok = False
+                    print("!! %s: patch does not apply" % name)
+                    break
+                continue
             p = os.path.join(WT, f)
             s = open(p).read()
             if s.count(old) != 1:
@@ -371,7 +657,9 @@ def main():
             res.append((name, kind, "PATTERN"))
             continue
         t0 = time.time()
-        r = sh("/verif/tools/pygen_try.sh %s %s" % (WT, COQ))
+        props = "C15gen" if name.startswith(("I", "PI")) else "C18gen" if name.startswith("S") else \
+            "TieGen" if name.startswith(("T", "PT")) and not name.startswith("T0") and not name.startswith("T1") else "C10gen TieGen"
+        r = sh("%s %s %s %s" % (TRY, WT, COQ, props))
         checks = r.returncode == 0
         verdict = ("ok" if checks else "FALSE ALARM") if kind == "rewrite" else ("caught" if not checks else "MISSED")
         first = ""
@@ -381,7 +669,7 @@ def main():
         print("%-75s %-11s %5.1fs %s" % (name, verdict, time.time() - t0, first), flush=True)
         res.append((name, kind, verdict))
     sh("git -C %s checkout -q -- pabutools" % WT)
-    sh("/verif/tools/pygen_try.sh /repo %s" % COQ)
+    sh("%s /repo %s" % (TRY, COQ))
     rw = [r for r in res if r[1] == "rewrite"]
     br = [r for r in res if r[1] == "break"]
     print("rewrites kept checking: %d / %d" % (sum(r[2] == "ok" for r in rw), len(rw)))
